@@ -1,11 +1,13 @@
 """C11 - decided on the channel state machine (Model/Chan.v, Model/ChanProps.v)."""
 from harness.chandrv import ChanDriver
+from harness import concdrv
 
 
 class Driver(ChanDriver):
     PID = 'C11'
     PROP = 'c11_ok'
     PROFILES = [('errors', 150, 2000), ('consume', 60, 600)]
+    CONC = [('close', concdrv.gen_close, 'conc_close_ok', 40, 600)]
     RULE = ("scenarios from the profiles ['errors', 'consume'] of harness/changen.py: sequences of "
             'application operations on 1-3 channels, each with a script of '
             'inbound frame batches (replies, deliveries, returns, cancels, '
